@@ -88,6 +88,23 @@ def run(ctx):
                 pool += list(t.items())
         for _ in range(150 if quick else 3000):
             add("mix", vendor, ss[0][2], mix(rnd, pool), mix(rnd, pool))
+    # rules whose logic reads the lines of its key that do NOT change (VLAN lists spread over several lines, list lines next to blocks):
+    # the configurations of C11's rule families
+    from . import c11
+    U = [2, 3, 4, 6, 7, 10, 11, 20]
+    for fam in c11.FAMILIES:
+        hw = E.hwview(fam.model, "")
+        for _ in range(60 if quick else 1500):
+            so, sn = set(rnd.sample(U, rnd.randint(1, 6))), set(rnd.sample(U, rnd.randint(0, 6)))
+            lo = [[str(x)] for x in sorted(so)]
+            keep = [ln for ln in lo if rnd.random() < 0.5]          # lines carried over verbatim
+            ln = keep + [[str(x)] for x in sorted(sn) if [str(x)] not in keep]
+            kw = {}
+            if getattr(fam, "blocks", False):
+                kw = {"blocks": sorted(rnd.sample(sorted(so), min(len(so), rnd.randint(0, 2))))}
+            old = fam.build([fam.sep.join(x) for x in lo], **kw) if kw else fam.build([fam.sep.join(x) for x in lo])
+            new = fam.build([fam.sep.join(x) for x in ln], **({"blocks": []} if kw else {}))
+            add("vlanfam", hw.vendor, hw, old, new)
     ctx.sample({"vendor": recs[0]["vendor"], "old": recs[0]["old"], "new": recs[0]["new"], "device_mode_cmds": recs[0]["dcmds"]})
     slim = [{k: r[k] for k in ("id", "fcmds", "dcmds", "fdiff", "ddiff")} for r in recs]
     verd = ctx.judge("trace/Trace_FrontEnds.tla", "trace/Trace.cfg", slim, shards=16)
